@@ -31,9 +31,7 @@ import (
 // path name for a given file is not guaranteed to be unique.
 // Abs calls [Clean] on the result.
 func (vfs *BasePathFS) Abs(path string) (string, error) {
-	abs, err := vfs.baseFS.Abs(vfs.ToBasePath(path))
-
-	return vfs.FromBasePath(abs), vfs.FromPathError(err)
+	return avfs.Abs(vfs, path, vfs.CurDir())
 }
 
 // Base returns the last element of path.
@@ -47,9 +45,16 @@ func (vfs *BasePathFS) Base(path string) string {
 // Chdir changes the current working directory to the named directory.
 // If there is an error, it will be of type *PathError.
 func (vfs *BasePathFS) Chdir(dir string) error {
-	err := vfs.baseFS.Chdir(vfs.ToBasePath(dir))
+	basePath := vfs.ToBasePath(dir)
 
-	return vfs.FromPathError(err)
+	err := vfs.baseFS.Chdir(basePath)
+	if err != nil {
+		return vfs.FromPathError(err)
+	}
+
+	_ = vfs.SetCurDir(vfs.FromBasePath(basePath))
+
+	return nil
 }
 
 // Chmod changes the mode of the named file to mode.
@@ -188,9 +193,7 @@ func (vfs *BasePathFS) FromSlash(path string) string {
 // reached via multiple paths (due to symbolic links),
 // Getwd may return any one of them.
 func (vfs *BasePathFS) Getwd() (dir string, err error) {
-	dir, err = vfs.baseFS.Getwd()
-
-	return vfs.FromBasePath(dir), vfs.FromPathError(err)
+	return vfs.CurDir(), nil
 }
 
 // Glob returns the names of all files matching pattern or nil
@@ -205,7 +208,17 @@ func (vfs *BasePathFS) Glob(pattern string) (matches []string, err error) {
 	matches, err = vfs.baseFS.Glob(vfs.ToBasePath(pattern))
 
 	for i, m := range matches {
-		matches[i] = vfs.FromBasePath(m)
+		m = vfs.FromBasePath(m)
+
+		if !vfs.IsAbs(pattern) {
+			// the matches of a relative pattern are relative to the current directory.
+			rel, relErr := vfs.Rel(vfs.CurDir(), m)
+			if relErr == nil {
+				m = rel
+			}
+		}
+
+		matches[i] = m
 	}
 
 	return matches, err
@@ -349,12 +362,14 @@ func (vfs *BasePathFS) Open(name string) (avfs.File, error) {
 // methods on the returned File can be used for I/O.
 // If there is an error, it will be of type *PathError.
 func (vfs *BasePathFS) OpenFile(name string, flag int, perm fs.FileMode) (avfs.File, error) {
-	bf, err := vfs.baseFS.OpenFile(vfs.ToBasePath(name), flag, perm)
+	basePath := vfs.ToBasePath(name)
+
+	bf, err := vfs.baseFS.OpenFile(basePath, flag, perm)
 	if err != nil {
 		return bf, vfs.FromPathError(err)
 	}
 
-	f := &BasePathFile{vfs: vfs, baseFile: bf}
+	f := &BasePathFile{vfs: vfs, baseFile: bf, name: name, absPath: vfs.FromBasePath(basePath)}
 
 	return f, nil
 }
